@@ -25,7 +25,7 @@ import common
 
 PID = "C14"
 FMTS = ("json", "msgpack", "cbor")
-EXTRA_COQ = ["Codec/C14Conf.v", "Codec/C14ConfShape.v"]
+EXTRA_COQ = ["Codec/C14Conf.v", "Codec/C14ConfShape.v", "Codec/C14ConfWire.v"]
 MODEL_VO = ["Codec/Canon.vo", "Codec/Serial.vo", "gen/GenC14Schema.vo"]
 
 INTENDED_SHAPE = {
@@ -106,13 +106,14 @@ def build_runner():
 
 
 def _big_stack():
-    try:
-        resource.setrlimit(resource.RLIMIT_STACK, (resource.RLIM_INFINITY, resource.RLIM_INFINITY))
-    except Exception:
+    # the extracted decoders recurse once per byte of a long string: 1 GiB of stack (a finite limit; an
+    # unlimited one changes the process layout and makes every exec slow)
+    for lim in (1 << 30, 1 << 28):
         try:
-            resource.setrlimit(resource.RLIMIT_STACK, (1 << 30, 1 << 30))
+            resource.setrlimit(resource.RLIMIT_STACK, (lim, lim))
+            return
         except Exception:
-            pass
+            continue
 
 
 def run_model(exe, reqs):
@@ -120,7 +121,7 @@ def run_model(exe, reqs):
     (same order).  Sharded over the cores."""
     if not reqs:
         return []
-    nshard = max(1, min(common.NPROC, len(reqs) // 200 + 1))
+    nshard = max(1, min(common.NPROC, len(reqs) // 3000 + 1))
     shards = [[] for _ in range(nshard)]
     for i, r in enumerate(reqs):
         shards[i % nshard].append((i, r))
@@ -128,8 +129,9 @@ def run_model(exe, reqs):
 
     def work(sh):
         inp = "".join("%d %s\n" % (i, r) for i, r in sh)
-        p = subprocess.run([exe], input=inp, stdout=subprocess.PIPE, stderr=subprocess.PIPE, text=True, errors="replace",
-                           preexec_fn=_big_stack, timeout=3000)
+        # 1 GB of stack through the shell (a preexec_fn would force a slow fork of this large process)
+        p = subprocess.run(["/bin/sh", "-c", 'ulimit -s 1000000 2>/dev/null; exec "$0"', exe], input=inp,
+                           stdout=subprocess.PIPE, stderr=subprocess.PIPE, text=True, errors="replace", timeout=3000)
         got = {}
         for line in p.stdout.splitlines():
             k, _, v = line.partition(" ")
@@ -585,8 +587,11 @@ def in_kernel_sample(cases, summary, limit):
         r = c.get("m_desx")
         if r is None or len(hx) > 600 or len(picked) >= limit:
             continue
-        if c["fmt"] == "json" and (" D" in r or r == "unsup"):
-            continue            # the float text oracle is not available inside Coq
+        if c["fmt"] == "json":
+            # the float text oracle is not available inside Coq: no input that may hold a float token
+            raw = bytes.fromhex(hx)
+            if " D" in r or r == "unsup" or any(ch in raw for ch in b".eE"):
+                continue
         try:
             picked.append((c, _coq_outcome(r, structs)))
         except Exception:
@@ -634,6 +639,8 @@ def load_corpus():
     cases = []
     if os.path.isdir(d):
         for fn in sorted(os.listdir(d)):
+            if fn == "golden.txt":
+                continue
             for line in open(os.path.join(d, fn)):
                 line = line.split("#")[0].strip()
                 if not line:
@@ -730,9 +737,9 @@ def main(tier, replay):
     run = Run(tier, drive, model, v)
     thorough = tier == "thorough"
     escalate = bool(tie_broken or undischarged)
-    n_msg = 2400 if escalate else 840
-    n_val = 9000 if escalate else 3000
-    n_mut = 60000 if escalate else 20000
+    n_msg = 2400 if escalate else 600
+    n_val = 9000 if escalate else 2400
+    n_mut = 60000 if escalate else 16000
     if thorough:
         n_msg, n_val, n_mut = 33600, 100000, 1000000
     scale = float(os.environ.get("C14_SCALE", "1"))
@@ -765,6 +772,26 @@ def main(tier, replay):
             run.report("panic:" + c["D"][:60], "Deserialize panics", c)
         elif rt != "true":
             run.report(c["_sig"], JSON_FLOAT_WHAT + " — here: " + c["D"][:160], c)
+    # 2a. golden wire format: fixed messages of every type, bytes and decoded result as on the reference tree
+    gold_path = os.path.join(common.VERIF, "corpus", PID, "golden.txt")
+    if os.path.exists(gold_path):
+        want = [l.rstrip("\n") for l in open(gold_path) if l.startswith("S ")]
+        gcur, _ = run_drive(drive, ["golden"])
+        got = ["S %s %s %s | M %s | D %s | V %s" % (c["id"], c["fmt"], c["hex"] if c["hex"] is not None else "-", c["msg"], c["D"], c["V"]) for c in gcur]
+        run.evaluations += len(got)
+        run.count("golden: lines compared", len(got))
+        for i, w in enumerate(want):
+            g = got[i] if i < len(got) else "<missing>"
+            if g != w:
+                cur = gcur[i] if i < len(gcur) else dict(fmt=None, hex=None, msg="-", D="", V="")
+                run.report("golden:wire-format-changed",
+                           "a fixed message is serialized / deserialized differently from the reference wire format (corpus/C14/golden.txt line %d)" % (i + 1),
+                           cur, dict(expected_line=w[:1500], actual_line=g[:1500]))
+                break
+        else:
+            if len(got) != len(want):
+                run.report("golden:wire-format-changed", "number of golden lines differs: %d vs %d (message types added or removed)" % (len(got), len(want)),
+                           dict(fmt=None, hex=None, msg="-", D="", V=""))
     # 2. corpus
     corp = load_corpus()
     if corp:
